@@ -63,6 +63,8 @@ use alloc::{boxed::Box, format, string::String, string::ToString, vec, vec::Vec}
 /// ("0x" 1*HEXDIG / "0b" 1*BINDIG). Prefixes and digits are case insensitive
 /// (RFC 8610 Section 3.1); `from_str_radix` already accepts mixed-case hex
 /// digits, so only the prefix needs a case-insensitive match.
+#[cfg_attr(kani, kani::requires(verif_kani::grammar_uint(s)))]
+#[cfg_attr(kani, kani::ensures(|r: &Option<u64>| *r == verif_kani::spec_uint(s)))]
 fn parse_u64_lit(s: &str) -> Option<u64> {
   match s.as_bytes() {
     [b'0', b'x' | b'X', ..] => u64::from_str_radix(&s[2..], 16).ok(),
@@ -72,12 +74,16 @@ fn parse_u64_lit(s: &str) -> Option<u64> {
 }
 
 /// Parse a CDDL uint literal into usize (the AST's uint representation).
+#[cfg_attr(kani, kani::requires(verif_kani::grammar_uint(s)))]
+#[cfg_attr(kani, kani::ensures(|r: &Option<usize>| *r == verif_kani::spec_usize(s)))]
 fn parse_uint_lit(s: &str) -> Option<usize> {
   use core::convert::TryFrom;
   parse_u64_lit(s).and_then(|v| usize::try_from(v).ok())
 }
 
 /// Parse a CDDL int literal (["-"] uint), radix forms included.
+#[cfg_attr(kani, kani::requires(verif_kani::grammar_int(s)))]
+#[cfg_attr(kani, kani::ensures(|r: &Option<isize>| *r == verif_kani::spec_int(s)))]
 fn parse_int_lit(s: &str) -> Option<isize> {
   use core::convert::TryFrom;
   if let Some(rest) = s.strip_prefix('-') {
@@ -3603,6 +3609,17 @@ fn convert_member_key_simple<'a>(
       extended: None,
     },
   })
+}
+
+/// Kani contracts and harnesses for this module live out of tree; the directory
+/// is named by `ANWEISS_CDDL_VERIF_DIR` when the crate is built by `cargo kani`.
+#[cfg(kani)]
+mod verif_kani {
+  use super::*;
+  include!(concat!(
+    env!("ANWEISS_CDDL_VERIF_DIR"),
+    "/kani/pest_bridge.rs"
+  ));
 }
 
 /// Verification hooks: expose the private literal / error-range helpers to the
